@@ -613,3 +613,12 @@ def exact_tie_radix_ops(rng, fs, rads, per_radix=6, lossy=False):
                 q = rng.randint(-20, 20)
                 ops.append(pf_op(ty, fmt, lit(digits, q - k - q, r, r, point=len(digits) - k) if False else s + chr(exp_char(r)) + "0", r, lossy=lossy))
     return ops
+
+
+def digit_after_max(r):
+    """the byte `digit_to_char` would produce for the (invalid) digit value r: ':' for 10, '[' for 36, else the next letter"""
+    if r < 10:
+        return 48 + r
+    if r == 10:
+        return 58
+    return 55 + r
